@@ -643,6 +643,7 @@ struct FsRun<'a> {
     mm: Mismatches,
     results: HashMap<String, Value>,
     behaviours: u64,
+    nontrivial: u64,
     calls: u64,
     ok_calls: u64,
     counter: u64,
@@ -768,7 +769,7 @@ impl FsRun<'_> {
     /// exactly once, as the extension of its prefix: its last call runs in the real tree that the
     /// prefix produced (after a successful extension the harness puts the differing sub-trees back
     /// and verifies by a walk that the tree equals `state` again).
-    fn explore(&mut self, ini: usize, state: &Value, prefix: &mut Vec<usize>, depth: usize) {
+    fn explore(&mut self, ini: usize, state: &Value, prefix: &mut Vec<usize>, depth: usize, any_ok: bool) {
         let model = self.model;
         let Some(trans) = model.next.get(&state.to_string()) else { panic!("harness: tree not in the emitted graph: {state}") };
         for ci in 0..model.calls.len() {
@@ -779,8 +780,11 @@ impl FsRun<'_> {
             let route = self.counter % 2;
             let agreed = self.step(ini, prefix, prefix.len() - 1, state, *ok, ret, after, route);
             if agreed {
+                if any_ok || *ok {
+                    self.nontrivial += 1;
+                }
                 if prefix.len() < depth {
-                    self.explore(ini, after, prefix, depth);
+                    self.explore(ini, after, prefix, depth, any_ok || *ok);
                 }
                 if after != state {
                     self.restore(after, state);
@@ -841,7 +845,7 @@ fn fs_mode(dir: &str, scratch: &str, obs_path: &str, summary: &str, depth: usize
     let model = load_fs(dir);
     let lib = Lib::new();
     let mut run = FsRun { lib: &lib, root: root.clone(), model: &model, progs: HashMap::new(), fns: HashMap::new(),
-        mm: Mismatches::new(60), results: HashMap::new(), behaviours: 0, calls: 0, ok_calls: 0, counter: 0, samples: vec![] };
+        mm: Mismatches::new(60), results: HashMap::new(), behaviours: 0, nontrivial: 0, calls: 0, ok_calls: 0, counter: 0, samples: vec![] };
     let mut skipped_ro = 0u64;
     let mut rng = Rng::from_env(0xF5);
     let ncalls = model.calls.len();
@@ -853,7 +857,7 @@ fn fs_mode(dir: &str, scratch: &str, obs_path: &str, summary: &str, depth: usize
         }
         let s0 = model.inits[ini]["s"].clone();
         setup(&root, &s0);
-        run.explore(ini, &s0, &mut vec![], depth);
+        run.explore(ini, &s0, &mut vec![], depth, false);
         for _ in 0..sample3 {
             let seq: Vec<usize> = (0..depth + 1).map(|_| rng.below(ncalls)).collect();
             run.behaviour(ini, &seq);
@@ -864,7 +868,7 @@ fn fs_mode(dir: &str, scratch: &str, obs_path: &str, summary: &str, depth: usize
     let mut obs: Vec<Value> = run.results.values().cloned().collect();
     obs.sort_by_key(|v| v["id"].to_string());
     write_lines(obs_path, &obs);
-    write_json(summary, &json!({"behaviours": run.behaviours, "calls": run.calls, "successful_calls": run.ok_calls,
+    write_json(summary, &json!({"behaviours": run.behaviours, "nontrivial": run.nontrivial, "calls": run.calls, "successful_calls": run.ok_calls,
         "permissions_enforced": enforced, "initial_trees_skipped_unwritable": skipped_ro, "distinct_results": obs.len(),
         "mismatch_counts": run.mm.counts(), "mismatches": run.mm.items(), "samples": run.samples}));
     json!({"done": "fs"})
